@@ -279,7 +279,9 @@ def _make_kernel_contract(fn, name):
                 r = w()
                 if r is not None:
                     alive.append(w)
-                    if r is not result and np.may_share_memory(result, r):
+                    if r is result:
+                        STATE.fire("M-fresh", "C19", name, "kernel returned the very same array object as an earlier call (the assembly code scales blocks in place)")
+                    elif np.may_share_memory(result, r):
                         STATE.fire("M-fresh", "C19", name, "kernel result shares memory with an earlier result")
             alive.append(weakref.ref(result))
             STATE.recent_results = alive[-32:]
